@@ -494,6 +494,7 @@ def child_main(rfd, wfd, cache_dir, private_tmp, pool):
     import ffcx.codegeneration.jit as jit
 
     chan.send({"ev": "ready", "pid": os.getpid()})
+    kept = []
     while True:
         cmd = chan.recv()
         if cmd["cmd"] == "exit":
@@ -520,6 +521,9 @@ def child_main(rfd, wfd, cache_dir, private_tmp, pool):
             chan.send({"ev": "decoy-done", "result": ok})
             continue
         chan.now = cmd.get("now", chan.now)
+        if cmd.get("bare_root"):
+            # a plain script: nobody configured logging, the root logger has no handler at all
+            root.handlers.clear()
         req, objs = pool[cmd["req"]]
         handlers_before = list(root.handlers)
         stdout_before = sys.stdout
@@ -527,6 +531,13 @@ def child_main(rfd, wfd, cache_dir, private_tmp, pool):
         cwd_before = os.getcwd()
         environ_before = dict(os.environ)
         root_level_before = root.level
+        import warnings as _w
+        filters_before = list(_w.filters)
+        nfds_before = len(os.listdir("/proc/self/fd"))
+        ffcx_logger = logging.getLogger("ffcx")
+        ffcx_handlers_before = list(ffcx_logger.handlers)
+        disable_before = logging.root.manager.disable
+        jitmods_before = sorted(k for k in sys.modules if k.startswith(MODPREFIX))
         chan.nseams = 0
         out = {"ev": "outcome", "req": cmd["req"]}
         try:
@@ -561,6 +572,26 @@ def child_main(rfd, wfd, cache_dir, private_tmp, pool):
         out["stderr_same"] = sys.stderr is stderr_before
         out["environ_same"] = dict(os.environ) == environ_before
         out["root_level_same"] = root.level == root_level_before
+        out["warnings_filters_same"] = list(_w.filters) == filters_before
+        out["fd_delta"] = len(os.listdir("/proc/self/fd")) - nfds_before
+        out["ffcx_handlers_same"] = list(ffcx_logger.handlers) == ffcx_handlers_before
+        out["logging_disable_same"] = logging.root.manager.disable == disable_before
+        out["new_jit_sys_modules"] = [k for k in sys.modules if k.startswith(MODPREFIX)
+                                      and k not in jitmods_before]
+        # objects returned by an EARLIER request of this process must stay usable whatever
+        # happened since (garbage collection, a failed build, the same module loaded again)
+        if kept:
+            import gc as _gc
+
+            _gc.collect()
+            k_kind, k_objs, k_mod, k_digest = kept[0]
+            try:
+                out["earlier_digest_same"] = kernel_digest(k_kind, k_objs, k_mod) == k_digest
+            except BaseException as e:
+                out["earlier_digest_same"] = False
+                out["earlier_digest_error"] = type(e).__name__
+        if out.get("result") == "returned" and not str(out.get("digest", "")).startswith("kernel-call-failed"):
+            kept.append((req.kind, res_objs, module, out["digest"]))
         out["nseams"] = chan.nseams
         # leave the process as the next request of the same process would find it
         chan.send(out)
